@@ -10,5 +10,5 @@ Set Extraction KeepSingleton.
 Extraction "models_lu2.ml"
   QI qre qim qq Qnum Qden this
   q2_lu_max q2_lu_recip q2_mldivide_max q2_mldivide_recip q2_mrdivide_max q2_mrdivide_recip
-  q2_minverse_max q2_minverse_recip q2_ls_solve q2_gj_inverse
+  q2_minverse_max q2_minverse_recip q2_ls_solve
   lu_a lu_ri lu_d lu_pivots lu_cands.
